@@ -49,6 +49,8 @@ def run(repo, rep):
     rep.assume('A3: no monkey-patching or reflection (setattr on modules) outside the analysed sources')
     rep.trust('python ast semantics of the statement kinds handled (assign, augassign, del, for, with, try, calls)')
     rep.trust('resolved call graph of sv/resolve.py (names, methods by receiver class or unique method name, operator overloads on guarded parameters)')
+    from . import common
+    common.mutable_default_rule(repo, rep, list(SCOPE))
     nfun = 0
     for f in pur.funcs:
         nfun += 1
